@@ -2,10 +2,14 @@ package kvstore
 
 import (
 	"encoding/binary"
+	"math"
 	"sync"
 
 	"github.com/iotaledger/hive.go/ierrors"
 )
+
+// ErrSequenceExhausted is returned by Next when every number below math.MaxUint64 has been handed out or leased.
+var ErrSequenceExhausted = ierrors.New("sequence is exhausted")
 
 // Sequence represents a simple integer sequence backed by a KVStore.
 // A Sequence can be used to get a list of monotonically increasing integers.
@@ -90,6 +94,14 @@ func (seq *Sequence) update() error {
 
 	// reserve the interval and set in store
 	reserved := seq.next + seq.interval
+	if reserved < seq.next {
+		// the interval reaches beyond the largest number: lease what is left instead of a wrapped (small) mark, which
+		// would make the sequence start over and hand out numbers a second time
+		reserved = math.MaxUint64
+	}
+	if reserved == seq.next {
+		return ErrSequenceExhausted
+	}
 	var buf [8]byte
 	binary.BigEndian.PutUint64(buf[:], reserved)
 	err = seq.store.Set(seq.key, buf[:])
